@@ -9,6 +9,17 @@ import traceback
 
 def _worker(init, fn, inq, outq):
     try:
+        # an allocation the code under test derives from unconstrained inputs (a buffer of 2**40 bytes) fails with
+        # MemoryError inside the worker instead of getting the worker killed by the kernel
+        import resource
+
+        lim = int(os.environ.get("VERIF_WORKER_MEM_GB", "8")) << 30
+        soft, hard = resource.getrlimit(resource.RLIMIT_AS)
+        if hard == resource.RLIM_INFINITY or hard > lim:
+            resource.setrlimit(resource.RLIMIT_AS, (lim, hard))
+    except Exception:
+        pass
+    try:
         if init is not None:
             init()
     except BaseException as ex:
